@@ -53,6 +53,23 @@ Theorem C15_handler_summaries :
 Proof. exact summaries_tied. Qed.
 Print Assumptions C15_handler_summaries.
 
+(* ---- the registry identity of a connection is its socket's, not the IDENTIFY body's: the
+   model keys every producer entry by the connection (so C15_isolation below holds for every
+   JSON decoder); in the source the id is written once, before json.Unmarshal, from
+   client.RemoteAddr(), and every registry call of the handlers is keyed by client.peerInfo *)
+Theorem C15_identity_in_source :
+  identify_identity = lookupd_IDENTIFY_peerinfo_writes /\ identity_uses = lookupd_identity_uses.
+Proof. exact identity_tied. Qed.
+Print Assumptions C15_identity_in_source.
+
+Theorem C15_identity_from_socket :
+  exists post, lookupd_IDENTIFY_peerinfo_writes =
+    ("peerInfo := PeerInfo{id: client.RemoteAddr().String()}"%string :: "call json.Unmarshal(&peerInfo)"%string :: post)
+    /\ forall w, In w post -> w <> "call json.Unmarshal(&peerInfo)"%string /\ prefix "peerInfo.id" w = false
+                             /\ prefix "peerInfo =" w = false /\ prefix "client.peerInfo.id" w = false.
+Proof. exact identity_from_socket. Qed.
+Print Assumptions C15_identity_from_socket.
+
 (* ---- malformed commands get their code and are refused: the connection ends through the
    exit path on the state the command found, nothing is registered *)
 Theorem C15_unknown_command : forall decode s p line rest w params,
